@@ -64,7 +64,9 @@ func (r *ApiVersionsResponse) decode(pd packetDecoder, version int16) error {
 		return err
 	}
 
-	r.ApiVersions = make([]*ApiVersionsResponseBlock, numBlocks)
+	if numBlocks >= 0 {
+		r.ApiVersions = make([]*ApiVersionsResponseBlock, numBlocks)
+	}
 	for i := 0; i < numBlocks; i++ {
 		block := new(ApiVersionsResponseBlock)
 		if err := block.decode(pd); err != nil {
